@@ -6,6 +6,8 @@ export GOFLAGS=-mod=mod GOPROXY=off GOSUMDB=off GOTOOLCHAIN=local VERIF_ROOT="$(
 mkdir -p .state evidence replays lean/GV/Generated
 (cd harness && go build -o bin/extract ./cmd/extract)
 ./harness/bin/extract "${VERIF_REPO:-/repo}" lean/GV/Generated/Facts.lean .state/facts_sources.txt
-(cd lean && lake build GV driver)
+# the driver, and every property module (theorems + the pins they import), so that a check only has to re-verify what
+# the regenerated facts invalidate
+(cd lean && lake build GV driver $(ls GV/Props/*.lean | sed 's|/|.|g; s|\.lean$||'))
 (cd harness && go build -tags verif -o bin/vh ./cmd/vh)
 echo "setup ok"
